@@ -18,7 +18,7 @@ import (
 
 // Errors returned by the transport.
 var (
-	ErrClosed       = errors.New("simnet: use of closed transport")
+	ErrClosed       = fmt.Errorf("simnet: %w", net.ErrClosed) // what a real net.Conn reports after a local Close
 	ErrPeer         = io.ErrClosedPipe
 	ErrFault  error = &faultErr{}
 	// ErrFaultTemporary is an injected fault that describes itself as a timeout / temporary
